@@ -16,7 +16,7 @@ from crosshair.tracers import NoTracing
 META = {
     "bounds": "schema X, layouts 0 and 7; 2 documents covering a leaf of every scalar kind, enum, custom scalar, lists, objects, interface and union positions; "
               "one adversarial value per request at any field instance: symbolic None/bool/int(unbounded)/str(all strings, non-numeric positions) or one of "
-              "a 50-entry catalogue (non-finite/huge/denormal floats, huge ints, numeric strings, bytes, tuples, sets, generators, objects, exceptions, Decimal/Fraction, nested garbage)",
+              "a 60-entry catalogue (non-finite/huge/denormal floats, huge ints, numeric strings, bytes, tuples, sets, generators, objects, exceptions, Decimal/Fraction, nested garbage)",
     "outside": "symbolic floats and numeric strings at Int/Float positions (numeric laws for all floats: C10/E2); several adversarial values in one request (C02 pairs)",
     "explanation": "Oracle: structural conformance checker vf/ref/conform.py + null/err accounting relative to the fault-free response.",
 }
@@ -59,6 +59,7 @@ CATALOGUE = [
     lambda: {"_typename": "C", "x": 1}, lambda: Decimal(3), lambda: Fraction(3, 1), lambda: Decimal("1.5"), lambda: Decimal("NaN"),
     lambda: True, lambda: False, lambda: Weird(), lambda: L2([1]), lambda: [], lambda: {}, lambda: (lambda: 1), lambda: 0, lambda: "０",
     lambda: [{"_typename": "A", "id": None}], lambda: {"_typename": "A", "id": None}, lambda: 1e400, lambda: complex(1, 1),
+    lambda: "OBJECT", lambda: "FIELD_DEFINITION", lambda: "red", lambda: "Query",      # values of OTHER enums (introspection's), wrong case, a type name
 ]
 NOT_JSON = {0, 1, 2, 53, 25, 26, 27, 28, 29, 30, 31, 32, 38, 39, 40, 41, 44, 48, 54}     # entries a pass-through custom scalar would leak by design
 
